@@ -28,9 +28,9 @@ let () =
     let vs = function Accept -> "accept" | Reject r -> "reject:" ^ rej_s r in
     let (shp, tot, c13, srt) = (match add_files [] fs with
                       | AddOk ts -> let reg = Model.registry_of ts fs in
-                                    (registry_shaped reg, calls_total reg, vs (check_registry_c13 reg), bool_s (registry_maps_sorted reg))
-                      | AddRej _ -> (false, false, "-", "#1")) in
-    (* c13: the verdict of the second model of CheckDataRefs (Model/Compile.v) on the same registry; srt: the
+                                    (registry_shaped reg, calls_total reg, vs (compile_check_c13 (fun ks -> ks) fs), bool_s (registry_maps_sorted reg))
+                      | AddRej _ -> (false, false, vs (compile_check_c13 (fun ks -> ks) fs), "#1")) in
+    (* c13: the verdict of the second model of Registry.Add + CheckDataRefs (Model/Compile.v) on the same files; srt: the
        hypothesis of the theorem that ties the two models (map literals listed by increasing key) *)
     [v; bool_s (wf_bundle fs); bool_s (files_shaped fs); bool_s shp; bool_s tot; c13; srt]);
   (* c07_registry <key> : the same judgments on a registry loaded with load_registry (the compiled one) *)
